@@ -39,6 +39,28 @@ def yields(body):
     return out
 
 
+def all_yields(fx, body, depth=2):
+    """[(body, bb, value_expr, line, label)]: the `Some(x)` results of `body`, where a result that is simply the payload of
+    an Option returned by another MovePicker method (a helper such as `pull_quiet_forward`) is replaced by that
+    helper's own `Some(x)` results, analysed in the helper's body."""
+    out = []
+    ys = yields(body)
+    for (bb, e, line) in ys:
+        d = deep_strip(e)
+        helper = None
+        if depth > 0 and isinstance(d, tuple) and d[0] == "field" and d[2] == "0" and isinstance(d[1], tuple) and d[1][0] == "as" and d[1][2] == "Some":
+            c = deep_strip(d[1][1])
+            if isinstance(c, tuple) and c[0] == "call" and isinstance(c[1], str) and "MovePicker::" in c[1] and not c[1].endswith("next_best_move") and \
+                    c[2] and deep_strip(c[2][0]) == ("arg", 1, "self"):
+                helper = fx.body(c[1])
+        if helper is not None and helper is not body:
+            for (hb, hbb, he, hline, hl) in all_yields(fx, helper, depth - 1):
+                out.append((hb, hbb, he, hline, f"{norm(helper.name).split('::')[-1]}/{hl}"))
+        else:
+            out.append((body, bb, e, line, str(ordinal(ys, bb))))
+    return out
+
+
 def from_list(e):
     """expression reads an element of self.moves"""
     for c in find_calls(e, "ArrayVec::get", "ArrayVec<T, CAP>>::get", "Index>::index", "slice::get"):
@@ -84,22 +106,21 @@ def rule_src(fx, rep, nxt, nbm):
                 if not good:
                     bad(f"list-writer/{norm(b.name)}", f"`{b.name}` modifies the picker's move list through {who}; only the legal move generators and swaps may", b, b.line_of(bb, idx))
     # yielded values
-    ys = yields(nxt)
-    for (bb, e, line) in ys:
+    for (yb, bb, e, line, label) in all_yields(fx, nxt):
         n += 1
         d = deep_strip(e)
         kind = None
         if isinstance(d, tuple) and d[0] == "field" and d[2] == "0" and isinstance(d[1], tuple) and d[1][0] == "as" and self_field(d[1][1], "previous_best_move"):
             # hash move: only in the first stage
-            first = any(stage_guard(nxt, ge, pol) == "BestMove" for (ge, pol, w) in guard_conditions(nxt, bb, expand_named=True))
-            kind = "hash-move" if first else None
+            first = any(stage_guard(yb, ge, pol) == "BestMove" for (ge, pol, w) in guard_conditions(yb, bb, expand_named=True))
+            kind = "hash-move" if first and yb is nxt else None
         elif find_calls(e, "MovePicker::next_best_move"):
             kind = "list(next_best_move)"
         elif from_list(e):
             kind = "list"
         else:
             # remembered move: must be yielded under equality with a list element
-            for (ge, pol, w) in guard_conditions(nxt, bb, expand_named=True):
+            for (ge, pol, w) in guard_conditions(yb, bb, expand_named=True):
                 if isinstance(ge, tuple) and ge[0] == "call" and ge[1].endswith("Option::is_some_and") and pol is True and from_list(ge[2][0]):
                     caps = [x for x in walk(ge[2][1])]
                     if any(deep_strip(x) == d for x in caps if isinstance(x, tuple)):
@@ -110,7 +131,7 @@ def rule_src(fx, rep, nxt, nbm):
         rep.obligation(kind is not None)
         rep.sample({"rule": "C10-SRC", "yield_line": line, "source": kind})
         if kind is None:
-            bad(f"yield/{ordinal(ys, bb)}", f"MovePicker::next line {line} yields `{show(e)[:100]}`, which is neither read from the generated move list nor checked to equal one of its elements: a move that is not legal here can be handed to the search", nxt, line)
+            bad(f"yield/{label}", f"{yb.name} line {line} yields `{show(e)[:100]}`, which is neither read from the generated move list nor checked to equal one of its elements: a move that is not legal here can be handed to the search", yb, line)
     # next_best_move returns a list element
     for (bb, e, line) in yields(nbm):
         n += 1
@@ -155,18 +176,17 @@ def hash_move_excluded(body, bb, val):
 def rule_dedup(fx, rep, nxt, nbm):
     ok = True
     n = 0
-    ys = yields(nxt)
-    for (bb, e, line) in ys:
+    for (yb, bb, e, line, label) in all_yields(fx, nxt):
         d = deep_strip(e)
-        if isinstance(d, tuple) and d[0] == "field" and d[2] == "0" and isinstance(d[1], tuple) and d[1][0] == "as" and self_field(d[1][1], "previous_best_move"):
+        if yb is nxt and isinstance(d, tuple) and d[0] == "field" and d[2] == "0" and isinstance(d[1], tuple) and d[1][0] == "as" and self_field(d[1][1], "previous_best_move"):
             continue  # the hash move itself
         n += 1
-        good = bool(find_calls(e, "MovePicker::next_best_move")) or hash_move_excluded(nxt, bb, e)
+        good = bool(find_calls(e, "MovePicker::next_best_move")) or hash_move_excluded(yb, bb, e)
         rep.obligation(good)
         if not good:
             ok = False
-            rep.violation("C10-DEDUP", f"C10-DEDUP/next/{ordinal(ys, bb)}", f"MovePicker::next line {line} yields `{show(e)[:80]}` without checking it against the hash move, which was already yielded in the first stage",
-                          {"fn": nxt.name, "file": nxt.file, "line": line})
+            rep.violation("C10-DEDUP", f"C10-DEDUP/next/{label}", f"{yb.name} line {line} yields `{show(e)[:80]}` without checking it against the hash move, which was already yielded in the first stage",
+                          {"fn": yb.name, "file": yb.file, "line": line})
     for (bb, e, line) in yields(nbm):
         n += 1
         # the returned tuple's move component
@@ -245,17 +265,32 @@ def rule_loud(fx, rep, nxt):
                 rep.violation("C10-LOUD", f"C10-LOUD/{cur}->{v}", f"MovePicker::next line {line}: stage {v} is entered from {cur} without `only_captures` being false: the captures-only picker would yield quiet moves",
                               {"fn": nxt.name, "file": nxt.file, "line": line})
     # constructors: new_loud sets only_captures = true, new sets false; both start in the first stage with no list
+    fields = [f["name"] for f in fx.adt("move_picker::MovePicker")["variants"][0]["fields"]]
+
+    def ctor_value(body, depth=3):
+        """{field: expr} of the MovePicker literal a constructor returns, following a tail call to another constructor"""
+        from facts import decision_paths, substitute_args
+        paths = [p for p in decision_paths(body, 8) if p[1] is not None]
+        if len(paths) != 1 or paths[0][0]:
+            return None
+        r = deep_strip(paths[0][1])
+        if isinstance(r, tuple) and r[0] == "agg" and str(r[1]).endswith("MovePicker::MovePicker") and len(r[2]) == len(fields):
+            return dict(zip(fields, r[2]))
+        if depth > 0 and isinstance(r, tuple) and r[0] == "call" and isinstance(r[1], str) and fx.body(r[1]) is not None and "MovePicker::" in r[1]:
+            inner = ctor_value(fx.body(r[1]), depth - 1)
+            if inner is not None:
+                return {k: substitute_args(v, r[2]) for k, v in inner.items()}
+        return None
+
     for ctor, want in (("MovePicker::new_loud", 1), ("MovePicker::new", 0)):
         cb = fx.one(ctor)
         n += 1
+        m = ctor_value(cb)
         good = False
-        for bb, j, s in cb.stmts():
-            rv = s.get("rv")
-            if rv and rv["k"] == "agg" and rv.get("agg") == "adt" and norm(rv["adt"]) == MP:
-                m = dict(zip(rv["fields"], rv["ops"]))
-                oc = cb.expr(m["only_captures"], expand_named=True)
-                stg = deep_strip(cb.expr(m["stage"], expand_named=True))
-                good = oc == ("const", want) and isinstance(stg, tuple) and stg[0] == "agg" and str(stg[1]).endswith("GenStage::BestMove")
+        if m is not None:
+            oc = deep_strip(m["only_captures"])
+            stg = deep_strip(m["stage"])
+            good = oc == ("const", want) and isinstance(stg, tuple) and stg[0] == "agg" and str(stg[1]).endswith("GenStage::BestMove")
         rep.obligation(good)
         if not good:
             ok = False
@@ -279,6 +314,8 @@ MUTANTS = [
      "edits": [(M, "        if self.stage == GenQuiets {\n            self.stage = Killer1;\n", "        if self.stage == GenQuiets {\n            self.stage = Killer1;\n            if let Some(m) = self.previous_best_move {\n                if m.is_capture() && self.captures_end == 0 {\n                    return Some(m);\n                }\n            }\n")]},
     {"name": "picker list seeded from the killer table", "expect": "C10-SRC/list-writer",
      "edits": [(M, "            self.stage = Killer1;\n\n            movegen::generate_quiets(game, &mut self.moves, &self.movegencache);", "            self.stage = Killer1;\n\n            movegen::generate_quiets(game, &mut self.moves, &self.movegencache);\n            if let Some(k) = ctx.killer_moves.get_0(plies) {\n                if self.moves.is_empty() {\n                    self.moves.push(k);\n                }\n            }")]},
+    {"name": "captures-only constructor forgets its mode", "expect": "C10-LOUD/ctor",
+     "edits": [(M, "            previous_best_move: None,\n            only_captures: true,", "            previous_best_move: None,\n            only_captures: false,")]},
     {"name": "benign: reorder killer equality operands", "benign": True,
      "edits": [(M, "                        if Some(killer1) != self.previous_best_move {", "                        if self.previous_best_move != Some(killer1) {")]},
 ]
